@@ -185,7 +185,7 @@ func c20Partition(c *Ctx) {
 		fi := Info(fn)
 		stores := fi.Find(StoreTo(nil, "ProducerMessage.Partition"))
 		calls := fi.Find(p.CallTo("Partitioner.Partition"))
-		ok := len(stores) == 1 && len(calls) == 1 && choice(stores[0].In.(*ssa.Store).Val)
+		ok := len(stores) == 1 && len(calls) == 1 && (choice(stores[0].In.(*ssa.Store).Val) || choice(reachingCellValue(fn, stores[0].In.(*ssa.Store).Val)))
 		if ok {
 			// partition count from TopicConfig.partitions(topic)
 			a := callArgs(calls[0])
@@ -497,4 +497,39 @@ func c20CloseAll(c *Ctx) {
 		}
 		c.Check(bad == nil, rule, fn, fmt.Sprintf("loop#%d-runs-to-the-end", i), at, "every partition consumer is closed", "mocks.Consumer.Close can stop at the first partition whose Close returns something (left-over errors are legitimate): the partitions after it in map order are never closed nor examined — their deviations (consumer never started, channels not drained) are not reported", nil)
 	}
+}
+
+// reachingCellValue: v is a load of a local cell (a named result spilled because the function defers): the value of
+// the one store to that cell from which the load is reachable (nil if there is none or more than one).  The stores
+// `return -1, -1, err` makes into named results sit right before the return and reach no later load.
+func reachingCellValue(fn *ssa.Function, v ssa.Value) ssa.Value {
+	u, ok := strip(v).(*ssa.UnOp)
+	if !ok || u.Op != token.MUL {
+		return nil
+	}
+	al, ok := u.X.(*ssa.Alloc)
+	if !ok {
+		return nil
+	}
+	reg := WholeFn(fn)
+	var found ssa.Value
+	n := 0
+	for _, r := range *al.Referrers() {
+		st, isSt := r.(*ssa.Store)
+		if !isSt || st.Addr != ssa.Value(al) {
+			continue
+		}
+		other := func(it Item) bool {
+			s2, ok := it.In.(*ssa.Store)
+			return ok && s2 != st && s2.Addr == ssa.Value(al)
+		}
+		if hit, _ := reg.From(Item{In: st}.After()).Reach(Is(u), other); !hit.IsZero() {
+			found = st.Val
+			n++
+		}
+	}
+	if n != 1 {
+		return nil
+	}
+	return found
 }
